@@ -7,7 +7,11 @@ import HeimdallModel.Model.HttpFreshness
 Every cache user of heimdall has the same shape (`getSubjectInformation`, `getKey`, `Config.Token`,
 `jwtFinalizer.Execute`, `remoteAuthorizer.Execute`, `genericContextualizer.Execute`, `RoundTripper.RoundTrip`):
 
-1. if caching is enabled, ask the cache; an entry that is alive is used as it is (nothing is re-validated),
+1. if caching is enabled (for this request), ask the cache; an entry that is alive is used. Only the introspection
+   authenticator checks a cached response once more against the assertions and the clock; by
+   `c10_hit_passes_revalidation` that check cannot fail for an entry that is still alive, so the flow needs no
+   "hit, then refused" outcome (the correspondence run ages cached documents with the simulated time, so a check
+   that did refuse would show up as a disagreement),
 2. otherwise obtain a fresh answer from the remote party, refuse it if it is not valid now,
 3. compute a TTL and call `Set` only if it is positive.
 
@@ -16,7 +20,7 @@ A `Policy` fixes the three decisions; `step` runs one request, `run` a whole his
 namespace Heimdall.Validity
 
 structure Policy (U : Type) where
-  lookup : Bool                -- is the cache consulted
+  lookup : U → Bool            -- is the cache consulted for this request
   accept : Int → U → Bool      -- is the fresh answer `u`, obtained at `now`, accepted
   ttl    : Int → U → Int       -- TTL computed for it; `Set` is called iff it is positive
 
@@ -42,7 +46,7 @@ variable {U : Type}
 
 def step (p : Policy U) (k : StoreKind) (s : Store (Item U)) (now : Int) (idx : Nat) (r : Req U) :
     Store (Item U) × Outcome U :=
-  match (if p.lookup then s.get k r.key now else none) with
+  match (if p.lookup r.up then s.get k r.key now else none) with
   | some it => (s, .hit it)
   | none =>
     if p.accept now r.up then
@@ -93,15 +97,40 @@ def remaining (m : Mech) (cfg : Option Int) (now : Int) (a : Answer) : Option In
   | .remoteAuthz | .contextualizer => none
   | _ => a.exp.map (· - now)
 
-def mechPolicy (m : Mech) (cfg : Option Int) (vl : Nat) : Policy Answer where
-  lookup := lookupEnabled m cfg
+def mechPolicy (m : Mech) (cfg : Option Int) (vl : Int) : Policy Answer where
+  lookup := fun _ => lookupEnabled m cfg
   accept := fun now a => acceptsFresh m vl (remaining m cfg now a) && chainValid m (a.more.map (· - now))
   ttl := fun now a => cacheTTL m cfg (remaining m cfg now a)
 
-/-- the HTTP response cache in front of a remote endpoint -/
+/-- the HTTP response cache in front of a remote endpoint with `http_cache: {enabled: true, default_ttl: dttl}` -/
 def httpPolicy (dttl : Int) : Policy Exchange where
-  lookup := true
+  lookup := fun x => x.viaCache
   accept := fun _ _ => true
   ttl := httpTTL dttl
+
+/-- no response cache at all -/
+def noCachePolicy : Policy Exchange where
+  lookup := fun _ => false
+  accept := fun _ _ => true
+  ttl := fun _ _ => 0
+
+/-- `http_cache` settings of an endpoint as configured (`default_ttl` omitted = 0) -/
+structure HttpCacheConf where
+  enabled : Bool
+  dttl    : Int
+deriving DecidableEq, Repr
+
+/-- `Endpoint.CreateClient`: the response cache is in place only if it is configured and enabled -/
+def endpointPolicy (c : Option HttpCacheConf) : Policy Exchange :=
+  match c with
+  | some ⟨true, d⟩ => httpPolicy d
+  | _ => noCachePolicy
+
+/-- `MetadataEndpoint.effectiveEndpoint`: the default (enabled, 30 minutes) applies only if `http_cache` is not
+configured at all; a configured `default_ttl`, zero included, is used as it is -/
+def metadataPolicy (c : Option HttpCacheConf) : Policy Exchange :=
+  match c with
+  | none => endpointPolicy (some ⟨true, Gen.metadataDefaultTTL⟩)
+  | some conf => endpointPolicy (some conf)
 
 end Heimdall.Validity
